@@ -59,6 +59,7 @@ def is_pos_ge_len(f):
 def run(ctx):
     ctx.rule("state-error-exit", "each state-error exit is guarded by exactly its documented condition and constructs the documented variant")
     ctx.rule("state-error-total", "out of phase, the documented state error is the only possible outcome: no other exit is reachable on a path consistent with the out-of-phase condition")
+    ctx.rule("cipher-rollback", "the error edge of handshake read/write restores the handshake cipher to the checkpointed key and nonce (so a rejected out-of-phase call changes nothing)")
     ctx.rule("guards-before-effects", "no write / &mut call in the handshake read/write before the turn and finished guards have passed")
     ctx.rule("progress-on-ok", "my_turn / pattern_position written only on the Ok edge with the right value")
     ctx.rule("indicator-getters", "is_my_turn / is_handshake_finished / is_initiator return the fields / position == len")
@@ -72,6 +73,9 @@ def run(ctx):
         handshake_guards(ctx, cfg, "_write_message", WRITE_GUARDS, want_turn=True)
         handshake_guards(ctx, cfg, "_read_message", READ_GUARDS, want_turn=False)
         ctx.floor("progress-on-ok", errpath.check_progress_writes(ctx, cfg), 6, cfg)
+        # an out-of-phase call takes the public wrapper's error edge, which restores the checkpoint: that roll-back
+        # must re-install exactly the checkpointed key *and* nonce, or the rejected call has an effect
+        errpath.cipher_rollback(ctx, cfg)
         getters(ctx, cfg)
         conversions(ctx, cfg)
         oneway(ctx, cfg)
